@@ -54,7 +54,7 @@ def shards(tier, seed):
     out = []
     for func in ("nancumsum", "ffill", "bfill"):
         for n in range(1, b["n_complete"] + 1):
-            nparts = {1: 1, 2: 1, 3: 1, 4: 4, 5: 16}[n]
+            nparts = {1: 1, 2: 1, 3: 6, 4: 6, 5: 24}[n]
             for part in range(nparts):
                 out.append(dict(func=func, dtype="float64", n=n, part=part, nparts=nparts))
         out.append(dict(func=func, dtype="float64", n=b["n_stratum"], part=b["stratum"],
